@@ -2536,6 +2536,12 @@ def h_pop_fold(ctx, p):
             'fold may return only when no element is left in the iterator', p)
 
 
+# get_disjoint: every answer written into the result array is the value of a slot whose key matched that request
+AGREE_TRACK = {
+    (MAP, None, 'get_disjoint_mut'): {'C13'},
+    (MAP, None, 'get_disjoint_unchecked_mut'): {'C13', 'C18'},
+}
+
 # fold roots of single-cursor iterators: advances and closure calls are counted in the state
 ADV_TRACK = set()
 # nth of the consuming (pop) iterators: pops (len going down by one) are counted in the state
